@@ -865,6 +865,12 @@ func runC16(c *Ctx) {
 	if !c.Quick {
 		indents = []int{-5, -1, 0, 1, 2, 3, 4, 5, 6, 7, 8, 9, 10, 11, 100, math.MinInt64, math.MaxInt64}
 	}
+	// far-out indents that alias small ones under truncation to 8, 16 or 32 bits
+	farOut := []int{255, 256, 257, 266, 267, 512, 65536, 65538, -256, -255, -246, -65536 + 3}
+	for _, n := range farOut {
+		c.fmtLine(&Tree{K: '[', Xs: []*Tree{tInt(1), obj1("k", tInt(2))}}, n)
+		c.fmtLine(obj1("k", &Tree{K: '[', Xs: []*Tree{tInt(1)}}), n)
+	}
 	for _, cp := range c.codePoints() {
 		if c.Quick && cp >= 0x100 && r.Intn(8) != 0 {
 			continue
@@ -905,7 +911,7 @@ func (d *errDoc) add(s string)  { d.toks = append(d.toks, docTok{s: s}) }
 func (d *errDoc) mark(s string) { d.toks = append(d.toks, docTok{s: s, mark: true}) }
 
 func (d *errDoc) scalar() {
-	switch d.r.Intn(5) {
+	switch d.r.Intn(7) {
 	case 0:
 		d.add("null")
 	case 1:
@@ -914,8 +920,11 @@ func (d *errDoc) scalar() {
 		d.add(strconv.Itoa(d.r.SmallInt()))
 	case 3:
 		d.add("1.5")
-	default:
+	case 4:
 		d.add(`"s\n\"x"`)
+	default:
+		// raw line feeds inside a string are characters of the input like any other: they count as lines
+		d.add("\"a\nb\n\nc\\\"d\n\"")
 	}
 }
 
@@ -959,7 +968,11 @@ func (d *errDoc) value(depth int, inject *int, kind int, inObj bool) {
 					d.mark([]string{"x", "1", "[", ":", ","}[r.Intn(5)])
 					return
 				}
-				d.add(`"k` + strconv.Itoa(i) + `"`)
+				if d.r.Chance(15) {
+					d.add("\"k\n" + strconv.Itoa(i) + "\"") // a key with a raw line feed
+				} else {
+					d.add(`"k` + strconv.Itoa(i) + `"`)
+				}
 				if *inject == 0 && kind == 1 {
 					d.mark([]string{"1", "\"v\"", "x", "=", "{"}[r.Intn(5)])
 					return
